@@ -82,6 +82,15 @@ CLAIMED = {
          "run of concurrent readers and independent pipelines compared with the sequential result. Not decided: interleavings themselves; reads of the "
          "identity dictionary outside its lock rely on phase separation (after Process), which is not checked."),
    ref="8 (C19)"),
+ "C01": dict(
+   text=("Deductive no-panic proof by a zero-annotation sweep: for 347 of the 451 functions of pkg/yang and pkg/indent every implicit run-time check "
+         "(nil dereference, index and slice bounds, write to a nil map, failed type assertion, division by zero, explicit panic) and every callee "
+         "precondition is a discharged obligation under at most a non-nil receiver (contracts generated once, committed, never regenerated by the "
+         "check), plus the hand-written safe contracts of the other properties; termination measures on pow10, Contains, ReadOnly, Namespace, RootNode, "
+         "dup, importErrors, Find's root walk. Bounded (labelled): 76 hostile inputs (cyclic typedefs/groupings/identities, augments of leaves, absent "
+         "modules, garbage) each loaded, processed and read back in a child process under a time limit. Not decided: the reflection-driven builder, "
+         "ToEntry, Type.resolve, ApplyDeviate and the lexer state machine as a whole (their functions stay outside the safe set), stack depth."),
+   ref="8 (C01)"),
 }
 
 NOT_REACHED = {}
